@@ -49,7 +49,12 @@ def day2date(n):
 
 
 def ts2day(ts):
-    return int((pd.Timestamp(ts) - _EPOCH_TS).days)
+    """calendar date of a window boundary as a day number, by Python's own date arithmetic (the code
+    under test subtracts pandas Timestamps); a boundary that is not at midnight is an error"""
+    t = pd.Timestamp(ts).to_pydatetime()
+    if (t.hour, t.minute, t.second, t.microsecond) != (0, 0, 0, 0):
+        raise RuntimeError(f"window boundary {ts} is not a whole day")
+    return (t.date() - EPOCH).days
 
 
 def repo_constant():
@@ -60,19 +65,49 @@ def repo_constant():
 # ----------------------------------------------------------------------------------------------
 # whole tables through the real report functions
 # ----------------------------------------------------------------------------------------------
+# names chosen to collide in every way a name can: prefixes of each other, digits whose natural and
+# lexicographic orders differ, underscores, blanks, commas, marker-like and NA-like strings
+WEIRD_SITES = ["A", "A_1", "A_10", "A_2", "10", "9", "1", "01", "100", "kept", "keptA", "Logs", "NA", "nan",
+               "None", "null", "Placeholder_0", "site", "site_1", "site_1_1", "site_11", "a b", "x,y", "Ä1",
+               "_", "__", "0", "-1", "1.0", "1e3", "True", "NaT", "inf", "start", "end", "Site ID", "S_", "s",
+               "S", "z" * 40, "q"]
+WEIRD_EQG = ["eq", "eq_1", "eq_10", "eq_2", "1", "kept", "NA", "E", "e q", "None"]
+WEIRD_COMP = ["c", "c_1", "c_10", "c_2", "1", "Placeholder_0", "nan", "C", "c,d", "null"]
+
+
 def _site_name(site, style):
-    return int(site) if style == "int" else f"site_{site}"
+    if style == "int":
+        return int(site)
+    if style == "weird":
+        return WEIRD_SITES[int(site) % len(WEIRD_SITES)]
+    return f"site_{site}"
 
 
-def _site_back(x):
+def _eqg_name(e, style):
+    return WEIRD_EQG[e % len(WEIRD_EQG)] if style == "weird" else f"E{e}"
+
+
+def _comp_name(c, style):
+    return WEIRD_COMP[c % len(WEIRD_COMP)] if style == "weird" else f"C{c}"
+
+
+def _missing(x):
+    return x is None or x is pd.NA or (isinstance(x, float) and np.isnan(x))
+
+
+def _site_back(x, style="str"):
+    if style == "weird":
+        return WEIRD_SITES.index(str(x))
     if isinstance(x, str):
         return int(x.split("_")[1])
     return int(x)
 
 
-def _id_back(x):
-    if x is None or (isinstance(x, float) and np.isnan(x)) or x is pd.NA:
+def _id_back(x, style="str", pool=None):
+    if _missing(x) or (style != "weird" and x == ""):
         return -1
+    if style == "weird":
+        return pool.index(str(x))
     return int(str(x)[1:])
 
 
@@ -82,8 +117,8 @@ def survey_frame(recs, scale, style="str"):
     for (site, eqg, comp, day, rn) in recs:
         rep = MinimalSurveyReport(
             site_id=_site_name(site, style),
-            equipment_id=None if eqg < 0 else f"E{eqg}",
-            component_id=None if comp < 0 else f"C{comp}",
+            equipment_id=None if eqg < 0 else _eqg_name(eqg, style),
+            component_id=None if comp < 0 else _comp_name(comp, style),
             measured_rate=rn / scale,
             survey_completion_date=day2date(day),
         )
@@ -111,39 +146,91 @@ def _call_report(mode, df, S, E, f):
     return res, captured
 
 
-def impl_report(case, style="str"):
-    """-> dict key(site,eqg,comp) -> list of windows dict(start, stop, date, rate_num, vol);
-    {} when the code produces no report"""
+SHAPE_ISSUES = []   # unexpected shapes of the code met by the adapter (reported as broken obligations)
+HISTORY_ISSUES = []  # input frames mutated by the call / a repeated call giving another result
+
+
+def impl_report(case, style="str", audit=False):
+    """-> dict key(site,eqg,comp) -> list of windows dict(start, stop, [date], rate_num, vol);
+    {} when the code produces no report.  Site / equipment / component / dates are read from the
+    report itself where it carries them, else from the frame determine_start_and_end_dates returned.
+    `audit`: also check that the input frame is left untouched and that a second call on the same
+    frame gives the same report."""
     (mode, f, S, E, scale, recs) = case
     df = survey_frame(recs, scale, style)
     if df.empty:
         df = pd.DataFrame(columns=[eca.SITE_ID, eca.EQG, eca.COMP, eca.M_RATE, eca.SURVEY_COMPLETION_DATE])
+    before = df.copy(deep=True) if audit else None
     res, captured = _call_report(mode, df, S, E, f)
+    if audit:
+        if not (df.equals(before) and list(df.columns) == list(before.columns)):
+            HISTORY_ISSUES.append(("input survey frame mutated by the report function", case))
+        res2, _ = _call_report(mode, df, S, E, f)
+        same = (res is None and res2 is None) or (res is not None and res2 is not None and res[0].equals(res2[0]))
+        if not same:
+            HISTORY_ISSUES.append(("second call on the same frame gives another report", case))
     if res is None:
         return {}
     est = res[0]
-    full = captured[-1]
-    if len(est) != len(full):
-        raise RuntimeError("report and window frame differ in length")
-    out = {}
-    sites = full[eca.SITE_ID].tolist()
-    eqgs = full[eca.EQG].tolist() if mode == 1 else [None] * len(full)
-    comps = full[eca.COMP].tolist() if mode == 1 else [None] * len(full)
-    dates = full[eca.SURVEY_COMPLETION_DATE].tolist()
+    full = captured[-1] if captured else None
+    if full is None:
+        SHAPE_ISSUES.append("determine_start_and_end_dates was not called by the report function")
+    elif len(est) != len(full):
+        SHAPE_ISSUES.append("report and frame of determine_start_and_end_dates differ in length")
+        full = None
+
+    def col(name):
+        if name in est.columns:
+            return est[name].tolist()
+        if full is not None and name in full.columns:
+            return full[name].tolist()
+        return None
+
+    sites = col(eca.SITE_ID)
+    eqgs = col(eca.EQG) if mode == 1 else None
+    comps = col(eca.COMP) if mode == 1 else None
+    dates = col(eca.SURVEY_COMPLETION_DATE)
+    if full is not None and eca.SITE_ID in est.columns and est[eca.SITE_ID].tolist() != full[eca.SITE_ID].tolist():
+        SHAPE_ISSUES.append("site ids of the report and of the window frame differ row by row")
     starts = est[eca.START_DATE].tolist()
     stops = est[eca.END_DATE].tolist()
     rates = est[eca.M_RATE].tolist()
     vols = est[eca.EST_VOL_EMIT].tolist()
-    for i in range(len(full)):
-        key = (_site_back(sites[i]), _id_back(eqgs[i]), _id_back(comps[i]))
+    out = {}
+    for i in range(len(est)):
+        key = (_site_back(sites[i], style),
+               _id_back(eqgs[i], style, WEIRD_EQG) if eqgs is not None else -1,
+               _id_back(comps[i], style, WEIRD_COMP) if comps is not None else -1)
         rn = Fraction(float(rates[i])) * scale
         if rn.denominator != 1:
             raise RuntimeError(f"rate {rates[i]} off the grid")
-        out.setdefault(key, []).append({
-            "start": ts2day(starts[i]), "stop": ts2day(stops[i]), "date": ts2day(dates[i]),
-            "rate_num": int(rn), "vol": float(vols[i]),
-        })
+        w = {"start": ts2day(starts[i]), "stop": ts2day(stops[i]), "rate_num": int(rn), "vol": float(vols[i])}
+        if dates is not None:
+            w["date"] = ts2day(dates[i])
+        out.setdefault(key, []).append(w)
     return out
+
+
+def run_cases_fresh(cases, style="str"):
+    """the cases, in this order, in ONE fresh Python process (nothing of this process's history);
+    -> list of reports (keys as strings 'site,eqg,comp')"""
+    import json
+    import subprocess
+    import sys as _sys
+
+    env = dict(os.environ)
+    env["PYTHONPATH"] = os.path.dirname(os.path.dirname(os.path.dirname(os.path.abspath(__file__)))) + os.pathsep + env.get("PYTHONPATH", "")
+    env["PYTHONDONTWRITEBYTECODE"] = "1"
+    p = subprocess.run([_sys.executable, "-m", "harness.adapters.window"], input=json.dumps({"cases": cases, "style": style}),
+                       stdout=subprocess.PIPE, stderr=subprocess.PIPE, text=True, env=env, timeout=600)
+    if p.returncode != 0:
+        raise RuntimeError("fresh-process run failed: " + p.stderr[-800:])
+    return json.loads(p.stdout.strip().splitlines()[-1])
+
+
+def report_to_json(rep):
+    return {"%d,%d,%d" % k: [[w["start"], w["stop"], w.get("date"), w["rate_num"], w["vol"]] for w in ws]
+            for k, ws in sorted(rep.items())}
 
 
 # ----------------------------------------------------------------------------------------------
@@ -266,12 +353,12 @@ def manager_report(case, style="str", repeat_tf_site=None):
         path = Path(tmp) / "out" / mgr.generate_file_names(Output_Files.EST_EMISSIONS_FILE)
         if not path.exists():
             return {}
-        csv = pd.read_csv(path, float_precision="round_trip")
+        csv = pd.read_csv(path, float_precision="round_trip", keep_default_na=False, dtype={eca.SITE_ID: str, eca.EQG: str, eca.COMP: str} if style != "int" else None)
         out = {}
         for _, row in csv.iterrows():
-            key = (_site_back(row[eca.SITE_ID]),
-                   _id_back(row[eca.EQG]) if mode == 1 else -1,
-                   _id_back(row[eca.COMP]) if mode == 1 else -1)
+            key = (_site_back(row[eca.SITE_ID], style),
+                   _id_back(row[eca.EQG], style, WEIRD_EQG) if mode == 1 else -1,
+                   _id_back(row[eca.COMP], style, WEIRD_COMP) if mode == 1 else -1)
             rn = Fraction(float(row[eca.M_RATE])) * scale
             out.setdefault(key, []).append({
                 "start": ts2day(row[eca.START_DATE]), "stop": ts2day(row[eca.END_DATE]),
@@ -281,3 +368,15 @@ def manager_report(case, style="str", repeat_tf_site=None):
         return out
     finally:
         shutil.rmtree(tmp, ignore_errors=True)
+
+
+if __name__ == "__main__":
+    import json
+    import sys as _sys
+
+    job = json.load(_sys.stdin)
+    outs = []
+    for c in job["cases"]:
+        case = (c[0], c[1], c[2], c[3], c[4], [tuple(r) for r in c[5]])
+        outs.append(report_to_json(impl_report(case, job.get("style", "str"))))
+    print(json.dumps(outs))
